@@ -587,6 +587,15 @@ func (p *Path) mkRange(x Value, site ssa.Instruction) Value {
 			for i := range idx {
 				idx[i] = i
 			}
+			if p.side["permute"] == "one" && n > 1 {
+				// one designated site: the first map range for which the schedule says
+				// "here" gets an arbitrary order, every other range the canonical one
+				if done, _ := p.side["permuted"].(bool); done || p.choose("permute-this-range", 2) == 0 {
+					goto canonical
+				}
+				p.side["permuted"] = true
+				p.side["permuteHere"] = true
+			}
 			if p.permuteOn() && n > 1 {
 				// symbolic schedule: the iteration order is a nondeterministic choice
 				rest := idx
@@ -599,6 +608,8 @@ func (p *Path) mkRange(x Value, site ssa.Instruction) Value {
 				order = append(order, rest[0])
 				idx = order
 			}
+		canonical:
+			p.side["permuteHere"] = false
 			for _, i := range idx {
 				it.Keys = append(it.Keys, xv.M.Entries[i].K)
 				it.Vals = append(it.Vals, xv.M.Entries[i].V)
@@ -653,7 +664,14 @@ func (p *Path) narrow32(x FloatV) FloatV {
 
 func (p *Path) permuteOn() bool {
 	if v, ok := p.side["permute"]; ok {
-		return v.(bool)
+		if b, isB := v.(bool); isB {
+			return b
+		}
+		// "one": permute exactly the designated range
+		done, _ := p.side["permuted"].(bool)
+		designated, _ := p.side["permuteHere"].(bool)
+		_ = done
+		return designated
 	}
 	return p.E.Cfg.PermuteMaps
 }
